@@ -178,7 +178,7 @@ func (vt *v2T) plantCase(c *v2C, planted []v2Doc, q int) {
 	for _, p := range pls {
 		vt.emit(map[string]interface{}{"ev": "plant", "in": in, "t": p.d.Cat, "name": p.d.Name, "key": p.d.Key, "st": p.st, "et": p.et, "sl": p.sl, "el": p.el, "thr": c.thr})
 	}
-	vt.match(c, data, v2MatchOpts{})
+	vt.match(c, data, v2MatchOpts{retain: true})
 }
 
 // ---------------------------------------------------------------------------------------------
@@ -248,7 +248,7 @@ func (vt *v2T) scenC03() {
 			if thr < 0.5 && len(in) > 2500 {
 				continue
 			}
-			vt.match(c, in, v2MatchOpts{})
+			vt.match(c, in, v2MatchOpts{retain: true})
 		}
 		vt.reset(false)
 	}
